@@ -237,7 +237,7 @@ func attributeFlowRule(P *Program, R *Report) {
 			case *ssa.MakeSlice:
 			case *ssa.Call:
 				// slices.Repeat([]*big.Int{zero}, n): every slot starts as the zero constant
-				if calleeName(x) != "slices.Repeat" {
+				if !calleeIs(x, "slices.Repeat") {
 					return
 				}
 				if seq, okS := seqOf(x.Call.Args[0]); okS && len(seq) == 1 && seq[0].D == "call:big.NewInt(0)" {
@@ -369,15 +369,28 @@ func completenessRule(P *Program, R *Report) {
 		"pk":                    "<gabi.Credential>.Pk",
 	}
 	got := map[string]string{}
+	gotV := map[string]ssa.Value{}
 	allInstrs(bf, func(i ssa.Instruction) {
 		if st, ok := i.(*ssa.Store); ok {
 			if fa, ok := st.Addr.(*ssa.FieldAddr); ok && desc(fa.X) == nb {
 				got[fieldName(fa.X.Type(), fa.Field)] = desc(st.Val)
+				gotV[fieldName(fa.X.Type(), fa.Field)] = st.Val
 			}
 		}
 	})
 	for f, w := range want {
-		R.decide(rule, kCredBuilder+":field:"+f, "builder field "+f+" is taken from "+w, got[f] == w, "got "+got[f], P.Pos(bf.Pos()))
+		ok := got[f] == w
+		if f == "undisclosedAttributes" && !ok {
+			// the complement helper in another shape (a method of the credential): same helper, given the disclosed list
+			if c, isCall := gotV[f].(*ssa.Call); isCall && staticCallee(c) != nil && staticCallee(c) == P.Func("gabi.getUndisclosedAttributes") {
+				for _, a := range c.Call.Args {
+					if desc(a) == "arg#1" {
+						ok = true
+					}
+				}
+			}
+		}
+		R.decide(rule, kCredBuilder+":field:"+f, "builder field "+f+" is taken from "+w, ok, "got "+got[f], P.Pos(bf.Pos()))
 	}
 	// the per-index randomiser: a map update attrRandomizers[undisclosed[i]] = fresh RandomBigInt drawn in the same
 	// loop, on every non-failing path through the body of a loop over the undisclosed indices - in the
@@ -400,7 +413,7 @@ func completenessRule(P *Program, R *Report) {
 		h := mu.Parent()
 		l := innermostLoopOf(mu.Block())
 		g := genCallOf(mu.Value)
-		if l == nil || g == nil || calleeName(g) != "common.RandomBigInt" || !l.Body[g.Block()] {
+		if l == nil || g == nil || !calleeIs(g, "common.RandomBigInt") || !l.Body[g.Block()] {
 			m.detail = "the stored value is not a RandomBigInt drawn inside the loop"
 			continue
 		}
@@ -440,8 +453,27 @@ func complementRule(P *Program, R *Report) {
 	if fn == nil {
 		return
 	}
-	R.decide(rule, key+":signature", "the helper decides membership from the disclosed list and the attribute count only", len(fn.Params) == 2,
-		fmt.Sprintf("%d parameters (extra inputs can make the result depend on attribute values)", len(fn.Params)), P.Pos(fn.Pos()))
+	// examined on behalf of the builder constructor, so that the disclosed list and the attribute count have the
+	// constructor's names whatever the helper's shape (function of (disclosed, n), method of the credential, ...)
+	root := P.Func(kCredBuilder)
+	ran := false
+	if root != nil {
+		ran = bindPath(root, fn, 1, func() { complementBody(P, R, rule, key, fn, "arg#1", "len(<gabi.Credential>.Attributes)") })
+	}
+	if !ran {
+		complementBody(P, R, rule, key, fn, "arg#0", "arg#1")
+	}
+}
+
+func complementBody(P *Program, R *Report, rule, key string, fn *ssa.Function, disc, count string) {
+	readsValues := false
+	allInstrs(fn, func(i ssa.Instruction) {
+		if v, ok := i.(ssa.Value); ok && strings.Contains(desc(v), ".Attributes[") {
+			readsValues = true
+		}
+	})
+	R.decide(rule, key+":signature", "the helper decides membership from the disclosed list and the attribute count only", len(fn.Params) == 2 && !readsValues,
+		fmt.Sprintf("%d parameters, reads attribute values: %v (extra inputs can make the result depend on attribute values)", len(fn.Params), readsValues), P.Pos(fn.Pos()))
 	// appends
 	nApp := 0
 	allInstrs(fn, func(i ssa.Instruction) {
@@ -463,7 +495,7 @@ func complementRule(P *Program, R *Report) {
 				continue // loop condition
 			}
 			conds = append(conds, fmt.Sprintf("%s is %s", d, a.Want))
-			if a.Want == False && (d == "makeslice[#i]" || d == "call:slices.Contains(arg#0,#i)" || d == "has(makemap[#i])" || d == "makemap[#i]") {
+			if a.Want == False && (d == "makeslice[#i]" || d == "call:slices.Contains("+disc+",#i)" || d == "has(makemap[#i])" || d == "makemap[#i]") {
 				memb = true
 			}
 		}
@@ -478,7 +510,7 @@ func complementRule(P *Program, R *Report) {
 		switch x := i.(type) {
 		case *ssa.Store:
 			if ia, ok := x.Addr.(*ssa.IndexAddr); ok {
-				if _, isMake := ia.X.(*ssa.MakeSlice); isMake && desc(x.Val) == "true" && desc(ia.Index) == "arg#0[#i]" {
+				if _, isMake := ia.X.(*ssa.MakeSlice); isMake && desc(x.Val) == "true" && desc(ia.Index) == disc+"[#i]" {
 					extra := 0
 					for _, a := range controllingConds(x.Block()) {
 						d := desc(normAtom(a).V)
@@ -492,7 +524,7 @@ func complementRule(P *Program, R *Report) {
 		case *ssa.MakeSlice:
 			if _, isBool := x.Type().Underlying().(interface{ Elem() interface{} }); isBool {
 			}
-			if l, ok := affineOf(x.Len); ok && l.String() == "arg#1" {
+			if l, ok := affineOf(x.Len); ok && l.String() == parseAffine(count).String() {
 				sizeOK = true
 			}
 		case *ssa.Call:
@@ -512,7 +544,7 @@ func complementRule(P *Program, R *Report) {
 		rangeOK = true
 	}
 	allInstrs(fn, func(i ssa.Instruction) {
-		if b, ok := i.(*ssa.BinOp); ok && desc(b) == "(#i<arg#1)" {
+		if b, ok := i.(*ssa.BinOp); ok && desc(b) == "(#i<"+count+")" {
 			rangeOK = true
 		}
 	})
